@@ -228,6 +228,8 @@ fn add_transaction<'ctx>(
         let u = *u.as_undecorated();
         // Note that deduced amount can be multi-commodity, neither SingleAmount nor PostingAmount.
         let deduced: Amount = balance.negate();
+        #[cfg(feature = "verif")]
+        crate::verif::emit("bk.deduced", || format!("{}", deduced.as_inline_display()));
         postings[u].amount = deduced.clone();
         bal.add_amount(postings[u].account, deduced);
     } else {
@@ -269,6 +271,10 @@ fn process_posting<'ctx>(
                 .try_into()?;
             let prev: PostingAmount = bal.set_partial(account, current)?;
             let amount = current.check_sub(prev)?;
+            #[cfg(feature = "verif")]
+            crate::verif::emit("bk.assign", || {
+                format!("{}|{}|{}|{}", account.as_str(), current, prev, amount)
+            });
             Ok((
                 Some(EvaluatedPosting {
                     amount,
@@ -288,6 +294,16 @@ fn process_posting<'ctx>(
                     .eval_mut(ctx)?
                     .try_into()?;
                 let diff = current.assert_balance(&expected);
+                #[cfg(feature = "verif")]
+                crate::verif::emit("bk.assert", || {
+                    format!(
+                        "{}|{}|{}|{}",
+                        account.as_str(),
+                        expected,
+                        current.as_inline_display(),
+                        diff.is_absolute_zero()
+                    )
+                });
                 if !diff.is_absolute_zero() {
                     return Err(BookKeepError::BalanceAssertionFailure {
                         account_span: posting.account.span(),
@@ -465,9 +481,13 @@ fn check_balance<'ctx>(
     );
     let balance = balance.round(ctx);
     if balance.is_zero() {
+        #[cfg(feature = "verif")]
+        crate::verif::emit("bk.balanced", || format!("{}", balance.as_inline_display()));
         return Ok(());
     }
     if let Some((a1, a2)) = balance.maybe_pair() {
+        #[cfg(feature = "verif")]
+        crate::verif::emit("bk.pair", || format!("{}|{}", a1, a2));
         // fill in converted amount.
         for p in postings.iter_mut() {
             let amount: Result<SingleAmount<'_>, _> = (&p.amount).try_into();
@@ -499,6 +519,8 @@ fn check_balance<'ctx>(
         return Ok(());
     }
     if !balance.is_zero() {
+        #[cfg(feature = "verif")]
+        crate::verif::emit("bk.unbalanced", || format!("{}", balance.as_inline_display()));
         return Err(BookKeepError::UnbalancedPostings(format!(
             "{}",
             balance.as_inline_display()
